@@ -144,3 +144,25 @@ func Text() string {
 	}
 	return string(b)
 }
+
+// ShortReader wraps a reader and never returns bytes across a multiple of
+// Block of its stream position in one call - what a buffered source does at
+// the end of its buffer. A short read is legal behaviour of an io.Reader.
+type ShortReader struct {
+	R      io.Reader
+	Block  int
+	pos    int
+	Shorts int
+}
+
+// Read implements io.Reader.
+func (s *ShortReader) Read(p []byte) (int, error) {
+	n := len(p)
+	if room := s.Block - s.pos%s.Block; n > room {
+		n = room
+		s.Shorts++
+	}
+	k, err := s.R.Read(p[:n])
+	s.pos += k
+	return k, err
+}
